@@ -127,6 +127,9 @@ def run(ctx, chk, tier="quick"):
     # every data interval reaches the interstorm classification: the loop over them is not cut short by its own body
     from ..typestate import lazy_cursor_loops
     lazy_cursor_loops(ctx, chk, "C04.O5", ("classify",), why="execute on the iterated cursor ends the loop over the data intervals after the first: later records get no flags and no interstorm intervals")
+    # the series the flags and the interstorm runs are computed from: one data interval, three series on the same instant, in time order
+    from .c03 import series_feed_queries
+    chk.floor("array-feeding series queries in the classification call tree", series_feed_queries(ctx, chk, "C04.O2"), 2)
     f = ctx.func("classify.get_mystery_jump_mask")
     if len(f.params) != 2:
         chk.indeterminate("C04.O1", where_of(f, f.node), "signature changed")
